@@ -4,8 +4,8 @@
    timestamp is an int64 and the value a 64-bit pattern — no ordering, no range restriction:
    all timestamp arithmetic in the model wraps like the Go code, so the property's
    "strictly increasing timestamps within +-2^62" is a special case. *)
-From Coq Require Import List ZArith.
-From Verif Require Import lib.Int64 lib.Bits model.Xor proof.XorProofs.
+From Coq Require Import List ZArith Lia.
+From Verif Require Import lib.Int64 lib.Bits model.Xor proof.XorProofs proof.Xor2Proofs.
 Import ListNotations.
 Open Scope Z_scope.
 
@@ -86,3 +86,61 @@ Proof. exact example_segs_ok. Qed.
 
 Example C10_inv_nonvacuous : Inv 0 xapp_init xit_init.
 Proof. exact Inv_init. Qed.
+
+(* ============================ XOR2 (start-timestamp capable) ============================== *)
+(* [wf_sample2]: start timestamp and timestamp are int64 values, the value a 64-bit pattern;
+   nothing else (any start timestamps, any order, stale NaNs anywhere). *)
+
+(* Any sample sequence up to the capacity, appended to a fresh XOR2 chunk, is returned exactly
+   - (start timestamp, timestamp, value bits) - by iterating the chunk's bytes. *)
+Theorem C10_xor2_roundtrip : forall k ss,
+  Forall wf_sample2 ss -> Z.of_nat (length ss) <= 65535 ->
+  exists num hdr bs, xor2_encode [(k, ss)] = EOk num [hdr] bs /\
+                     xor2_decode (chunk_bytes num [hdr] bs) = DOk ss false.
+Proof. exact xor2_roundtrip. Qed.
+
+(* ... also when appending is interrupted any number of times and resumed through
+   XOR2Chunk.Appender(), on the same object or on a chunk rebuilt from its bytes (the segments
+   carry either kind): the appender state is rebuilt by iterating the existing bytes with the
+   header as it is at that moment, and the final iterator reads with the final header. *)
+Theorem C10_xor2_resume : forall segs,
+  Forall wf_sample2 (flat_map snd segs) -> Z.of_nat (length (flat_map snd segs)) <= 65535 ->
+  exists num hdr bs, xor2_encode segs = EOk num [hdr] bs /\
+                     xor2_decode (chunk_bytes num [hdr] bs) = DOk (flat_map snd segs) false.
+Proof. exact xor2_history_roundtrip. Qed.
+
+(* One Append against one Next for XOR2 (simulation step), with the iterator knowing the final
+   header [hdr_of aF] while the appender is still at an intermediate state. *)
+Theorem C10_xor2_step : forall aF a hdr it st t v b a' hdr',
+  Inv2 aF a it -> HdrInv a hdr -> int64 st -> int64 t -> is_u64 v ->
+  x2_append a hdr st t v = Some (b, a', hdr') -> Fut a' aF ->
+  exists it', (forall r, x2_next it (b ++ r) = Some (it', r)) /\ Inv2 aF a' it' /\
+              j_st it' = st /\ j_t it' = t /\ j_v it' = v /\ b <> [].
+Proof. exact x2_step. Qed.
+
+(* varbit integers (start-timestamp deltas): every int64 falls in one bucket and decodes to itself *)
+Theorem C10_varbit_roundtrip : forall x r, int64 x -> get_varbit (put_varbit x ++ r) = Some (x, r).
+Proof. exact varbit_rt. Qed.
+
+(* the ST header byte is always firstSTKnown*128 + firstSTChangeOn with firstSTChangeOn <= 127,
+   and firstSTChangeOn is set by sample 127 at the latest *)
+Theorem C10_xor2_header : forall ss a hdr bs aF hdrF,
+  HdrInv a hdr -> x2_append_all a hdr ss = Some (bs, aF, hdrF) ->
+  HdrInv aF hdrF /\ Fut a aF /\ b_num aF = b_num a + Z.of_nat (length ss).
+Proof. exact x2_append_all_hdr. Qed.
+
+Theorem C10_xor2_capacity : forall a hdr st t v, b_num a = 65535 -> x2_append a hdr st t v = None.
+Proof. exact x2_capacity. Qed.
+
+Example C10_xor2_nonvacuous :
+  Forall wf_sample2 (flat_map snd example2_segs) /\
+  Z.of_nat (length (flat_map snd example2_segs)) <= 65535 /\
+  match xor2_encode example2_segs with
+  | EOk num [hdr] bs => num = 6 /\ hdr = 2 /\
+                        xor2_decode (chunk_bytes num [hdr] bs) = DOk (flat_map snd example2_segs) false
+  | _ => False
+  end.
+Proof. exact example2_ok. Qed.
+
+Example C10_inv2_nonvacuous : HdrInv x2app_init 0 /\ Inv2 x2app_init x2app_init (x2it_init 0).
+Proof. split; [exact HdrInv_init|]. apply (Inv2_init x2app_init). cbn. lia. Qed.
